@@ -285,7 +285,9 @@ class SFile(object):
         """
         get a copy of the header
         """
-        return self._hdr
+        # really a copy: the caller may edit what it gets, and the row count
+        # and dtype entries of our own dict are used by this object
+        return copy.deepcopy(self._hdr)
 
     def get_mode(self):
         """
